@@ -382,59 +382,77 @@ func ruleRenderAsserts(w *World, r *Report, pkg *ssa.Package, tag string) {
 			}
 			if list != nil {
 				lk := key(list)
-				for _, bb := range fn.Blocks {
-					cond, tE, _, okb := branchEdges(bb)
-					if !okb || !(edgeDominates(tE, b) || tE.To() == b && len(b.Preds) == 1) {
-						continue
-					}
-					phi, isPhi := cond.(*ssa.Phi)
-					if !isPhi {
-						continue
-					}
-					all, any := true, false
-					for i, e := range phi.Edges {
-						v, isK := constBool(e)
-						if !isK {
-							all = false
+				// srcOK: block src lies behind len(list) == 1 and a successful assertion of list[0] to the same type
+				srcOK := func(src *ssa.BasicBlock) bool {
+					lenOK, elemOK := false, false
+					for _, b3 := range fn.Blocks {
+						c3, t3, _, ok3 := branchEdges(b3)
+						if !ok3 || !(edgeDominates(t3, src) || t3.To() == src) {
 							continue
 						}
-						if !v {
-							continue
-						}
-						any = true
-						src := phi.Block().Preds[i]
-						lenOK, elemOK := false, false
-						for _, b3 := range fn.Blocks {
-							c3, t3, _, ok3 := branchEdges(b3)
-							if !ok3 || !(edgeDominates(t3, src) || t3.To() == src) {
-								continue
-							}
-							if bo, isBo := c3.(*ssa.BinOp); isBo && bo.Op == token.EQL {
-								if k, isK := constInt(bo.Y); isK && k == 1 {
-									if c, isLen := isBuiltinCall(stripInt(bo.X), "len"); isLen && key(c.Call.Args[0]) == lk {
-										lenOK = true
-									}
+						if bo, isBo := c3.(*ssa.BinOp); isBo && bo.Op == token.EQL {
+							if k, isK := constInt(bo.Y); isK && k == 1 {
+								if c, isLen := isBuiltinCall(stripInt(bo.X), "len"); isLen && key(c.Call.Args[0]) == lk {
+									lenOK = true
 								}
 							}
-							if ex, isEx := c3.(*ssa.Extract); isEx && ex.Index == 1 {
-								if t2, isTA := ex.Tuple.(*ssa.TypeAssert); isTA && t2.CommaOk && types.Identical(t2.AssertedType, ta.AssertedType) {
-									if ld, isLd := t2.X.(*ssa.UnOp); isLd && ld.Op == token.MUL {
-										if ia, isIA := ld.X.(*ssa.IndexAddr); isIA && key(ia.X) == lk {
-											if k, isK := constInt(ia.Index); isK && k == 0 {
-												elemOK = true
-											}
+						}
+						if ex, isEx := c3.(*ssa.Extract); isEx && ex.Index == 1 {
+							if t2, isTA := ex.Tuple.(*ssa.TypeAssert); isTA && t2.CommaOk && types.Identical(t2.AssertedType, ta.AssertedType) {
+								if ld, isLd := t2.X.(*ssa.UnOp); isLd && ld.Op == token.MUL {
+									if ia, isIA := ld.X.(*ssa.IndexAddr); isIA && key(ia.X) == lk {
+										if k, isK := constInt(ia.Index); isK && k == 0 {
+											elemOK = true
 										}
 									}
 								}
 							}
 						}
-						if !lenOK || !elemOK {
-							all = false
-							why = "the flag guarding the assertion can become true without len(list) == 1 and a successful assertion of its first element"
-						}
 					}
-					if all && any {
+					return lenOK && elemOK
+				}
+				// flagOK: the boolean being true implies the facts above (a flag set to true only behind them,
+				// or a conjunction computed behind the true edge of such a flag)
+				var flagOK func(v ssa.Value, depth int) bool
+				flagOK = func(v ssa.Value, depth int) bool {
+					phi, isPhi := v.(*ssa.Phi)
+					if !isPhi || depth > 3 {
+						return false
+					}
+					any := false
+					for i, e := range phi.Edges {
+						src := phi.Block().Preds[i]
+						if k, isK := constBool(e); isK {
+							if !k {
+								continue
+							}
+							any = true
+							if !srcOK(src) && !behindFlag(fn, src, func(c ssa.Value) bool { return flagOK(c, depth+1) }) {
+								return false
+							}
+							continue
+						}
+						// a computed value: fine when it is itself such a flag, or arrives only behind the true edge of one
+						any = true
+						if flagOK(e, depth+1) {
+							continue
+						}
+						if behindFlag(fn, src, func(c ssa.Value) bool { return flagOK(c, depth+1) }) {
+							continue
+						}
+						return false
+					}
+					return any
+				}
+				for _, bb := range fn.Blocks {
+					cond, tE, _, okb := branchEdges(bb)
+					if !okb || !(edgeDominates(tE, b) || tE.To() == b && len(b.Preds) == 1) {
+						continue
+					}
+					if flagOK(cond, 0) {
 						okS = true
+					} else if _, isPhi := cond.(*ssa.Phi); isPhi {
+						why = "the flag guarding the assertion can become true without len(list) == 1 and a successful assertion of its first element"
 					}
 				}
 			}
@@ -446,4 +464,18 @@ func ruleRenderAsserts(w *World, r *Report, pkg *ssa.Package, tag string) {
 	if n == 0 {
 		r.Ok(rule, fnName(fn)+":no-unchecked-assertions", w.Pos(fn.Pos()), "the hunk renderer contains no unchecked type assertion")
 	}
+}
+
+// behindFlag: block src is reachable only over the true edge of a branch whose condition satisfies pred.
+func behindFlag(fn *ssa.Function, src *ssa.BasicBlock, pred func(ssa.Value) bool) bool {
+	for _, bb := range fn.Blocks {
+		cond, tE, _, ok := branchEdges(bb)
+		if !ok || !(edgeDominates(tE, src) || tE.To() == src && len(src.Preds) == 1) {
+			continue
+		}
+		if pred(cond) {
+			return true
+		}
+	}
+	return false
 }
